@@ -68,7 +68,7 @@ package gorm
 //@   ensures attrs: result.attrs == stmt.attrs [C16]
 //@   ensures assigns: result.assigns == stmt.assigns [C16]
 //@   ensures joins: len(result.Joins) == len(stmt.Joins) && (result.Joins == nil || fresh(result.Joins))
-//@   ensures scopes: len(result.scopes) == len(stmt.scopes) && (result.scopes == nil || fresh(result.scopes))
+//@   ensures scopes: len(result.scopes) == len(stmt.scopes) && (result.scopes == nil || fresh(result.scopes)) [C06,C02]
 
 //@ func (*DB).getInstance
 //@   tags C06
@@ -97,7 +97,7 @@ package gorm
 //@   ensures dryrun: result.Config.DryRun == (db.Config.DryRun || config.DryRun) [C19]
 //@   ensures skip-default-tx: result.Config.SkipDefaultTransaction == (db.Config.SkipDefaultTransaction || config.SkipDefaultTransaction) [C19]
 //@   ensures connpool: !config.PrepareStmt ==> result.Statement.ConnPool == db.Statement.ConnPool [C05,C04]
-//@   ensures tx-stays-tx: config.PrepareStmt && is(db.Statement.ConnPool, Tx) ==> is(result.Statement.ConnPool, *PreparedStmtTX) && result.Statement.ConnPool.(*PreparedStmtTX).Tx == db.Statement.ConnPool [C04,C05]
+//@   ensures tx-stays-tx: config.PrepareStmt && is(db.Statement.ConnPool, Tx) ==> is(result.Statement.ConnPool, *PreparedStmtTX) && result.Statement.ConnPool.(*PreparedStmtTX).Tx == db.Statement.ConnPool [C04,C05,C14]
 //@   ensures error-kept: result.Error == db.Error [C05]
 //@   ensures statement-shared-or-fresh: result.Statement == db.Statement || fresh(result.Statement) [C06,C04]
 //@   ensures own-statement-with-a-context: config.Context != nil ==> fresh(result.Statement) [C04,C06,C18]
@@ -1075,6 +1075,27 @@ package gorm
 //@   in gorm.(*DB).FirstOrCreate
 //@   min-sites 3
 //@   cover assign-applied-next-to-attrs: arg1 != db.Statement.assigns || len(db.Statement.attrs) > 0 [C16]
+
+//@ # ---------- C15: Pluck reads one column whatever the chain selected before ----------
+//@ # Only a chain that selected exactly one column keeps its own SELECT; with two or more Pluck narrows it to the
+//@ # plucked column (the scan into a slice of scalars cannot take more).
+//@ site pluck-narrows-a-wider-selection
+//@   match call gorm.(*Statement).AddClauseIfNotExists
+//@   in gorm.(*DB).Pluck
+//@   min-sites 1
+//@   cover reached-with-several-selected-columns: len(tx.Statement.Selects) >= 2 [C15]
+//@ # "record not found" is raised only after the cursor's own error was looked at: a failure while fetching the first
+//@ # row is that failure for First/Take/Last too, as it is for Find and Rows.
+//@ ghost rowsErrSeen
+//@ event invoke Rows.Err
+//@   in gorm.Scan
+//@   do rowsErrSeen = 1
+//@ site not-found-only-after-the-cursor-error
+//@   match call gorm.(*DB).AddError
+//@   in gorm.Scan
+//@   min-sites 6
+//@   entry rowsErrSeen == 0
+//@   assert cursor-error-looked-at-first: arg1 == ErrRecordNotFound ==> rowsErrSeen == 1 [C15]
 
 //@ # ---------- C18/C04: a nested block is set up and undone on the caller's handle ----------
 //@ # SAVEPOINT and ROLLBACK TO SAVEPOINT of a nested Transaction carry the same context (and run on the same
